@@ -339,20 +339,91 @@ def lengths_for(rng, cfg):
     return sorted(x for x in ls if x <= 9)
 
 
-def precondition(cfg, n, kfv):
-    """Does the precondition of the transform hold on this input?  (STRICT: divisible length; a variable split
-    factor: an integer >= 1.)"""
+def iter_length(it, n):
+    """The run-time length of an iterable of the generated programs when xs, ys have length n (None: not known
+    syntactically -- the run is then not counted as an instance of a STRICT precondition)."""
+    k, a = it.k, it.a
+    if k == 'var':
+        return n if a[0] in ('xs', 'ys') else None
+    if k == 'list':
+        return len(a[0])
+    if k == 'range' and len(a[0]) == 1:
+        b = a[0][0]
+        if b.k == 'len':
+            return iter_length(b.a[0], n)
+        if b.k == 'num' and b.a[0].kind == 'fin' and b.a[0].q.denominator == 1 and b.a[0].q >= 0:
+            return int(b.a[0].q)
+        return None
+    if k == 'slice' and a[1] is None and a[2] is None:
+        return iter_length(a[0], n)
+    if k == 'comp' and len(a[0]) == 1:
+        return iter_length(a[0][0][1], n)
+    if k == 'enumerate':
+        return iter_length(a[0], n)
+    if k == 'zip':
+        ls = [iter_length(x, n) for x in a[0]]
+        return ls[0] if ls and all(x is not None and x == ls[0] for x in ls) else None
+    return None
+
+
+def selected_loops(body, cfg, divisor):
+    """The iterables of the `for` statements the configuration rewrites (sites are counted in visit order; a loop whose
+    statically known length is indivisible is not a site under STRICT -- the same rule as the transforms)."""
+    where, strict, sizes = cfg[1], cfg[3], cfg[4]
+    out = []
+    st = {'raw': 0, 'idx': 0}
+
+    def block(b, inside):
+        for s in b:
+            k, a = s.k, s.a
+            if k == 'for':
+                size = sizes[st['raw']] if st['raw'] < len(sizes) else None
+                st['raw'] += 1
+                refused = (strict and divisor is not None and size is not None and size % divisor != 0
+                           and not (cfg[0] == 'for' and cfg[2] == 0))
+                ins = inside
+                if not refused:
+                    idx = st['idx']
+                    st['idx'] += 1
+                    sel = where is None or (idx == where[1]) or (where[0] == 'cur' and inside)
+                    if sel:
+                        out.append(a[1])
+                    ins = inside or (where is not None and where[0] == 'cur' and idx == where[1])
+                block(a[2], ins)
+            elif k == 'if':
+                block(a[1], inside)
+                block(a[2], inside)
+            elif k in ('if1', 'while'):
+                block(a[1], inside)
+            elif k == 'with':
+                block(a[2], inside)
+    block(body, False)
+    return out
+
+
+def precondition(cfg, n, kfv, body):
+    """Does the precondition of the transform hold on this input?  STRICT: the length of EVERY iterable the chosen
+    loops iterate over is a multiple of the factor (decided on the iterable itself, not on the argument lists);
+    a variable split factor: an integer >= 1."""
     from fractions import Fraction
     if cfg[0] == 'for':
-        return (not cfg[3]) or cfg[2] == 0 or n % (cfg[2] + 1) == 0
+        if not cfg[3] or cfg[2] == 0:
+            return True
+        k = cfg[2] + 1
+        ls = [iter_length(it, n) for it in selected_loops(body, cfg, k)]
+        return all(x is not None and x % k == 0 for x in ls)
     if cfg[0] == 'split':
         fac = cfg[2]
-        if not isinstance(fac, int):
+        static = isinstance(fac, int)
+        if not static:
             q = Fraction(kfv)
             if q.denominator != 1 or q < 1:
                 return False
             fac = int(q)
-        return (not cfg[3]) or n % fac == 0
+        if not cfg[3]:
+            return True
+        ls = [iter_length(it, n) for it in selected_loops(body, cfg, fac if static else None)]
+        return all(x is not None and x % fac == 0 for x in ls)
     return True
 
 
@@ -378,7 +449,7 @@ def run(ck):
         ck.props('Props/C08.v')
 
     fams = ['while', 'for', 'for', 'iter', 'iter', 'fuse']
-    nprog = int(os.environ.get('C08_NPROG', 900 if thorough else 66))
+    nprog = int(os.environ.get('C08_NPROG', 900 if thorough else 110))
     cases, info = [], []
     rejected = 0
     t0 = time.time()
@@ -405,7 +476,14 @@ def run(ck):
             continue
         for f in g.features:
             ck.count('feature:' + f)
-        for cfg in configs(rng, fam, fn, thorough):
+        try:
+            cfgs = configs(rng, fam, fn, thorough)
+        except Exception as e:  # noqa: BLE001 -- listing the sites runs the real analyses
+            ck.count('sites-raised:' + type(e).__name__)
+            ck.violation('listing the sites of a strategy raised on a generated program',
+                         {'program': prog.source(), 'family': fam, 'error': f'{type(e).__name__}: {e}'})
+            continue
+        for cfg in cfgs:
             try:
                 tf = apply_real(fn, cfg)
                 real = lang.export_funcdef(tf.ast)
@@ -417,7 +495,7 @@ def run(ck):
             runs, metas = [], []
             for n in lengths_for(rng, cfg):
                 args = g.args(n, kf=(rng.choice([1, 2, 3, 2, 0, -1, 1.5, 4]) if cfg[0] == 'split' and not isinstance(cfg[2], int) else None))
-                pre = precondition(cfg, n, args[2].q)
+                pre = precondition(cfg, n, args[2].q, prog.funcs[0].body)
                 o = call_with_timeout(lambda: fn(*[py_of_arg(a) for a in args]))
                 t = call_with_timeout(lambda: tf(*[py_of_arg(a) for a in args]))
                 cargs = clist(cval_of_py(a) for a in args)
